@@ -1361,6 +1361,7 @@ class Array:
             chinfo2 = chinfo
         res = self.copy(deep=True)
         res.chinfo = chinfo2
+        res.qtotal = chinfo2.make_valid(self.qtotal)  # the total charge has to be taken modulo the new `qmod` as well
         res.legs = [LegCharge.from_change_charge(leg, charge, new_qmod, new_name, chinfo2) for leg in self.legs]
         res.test_sanity()
         return res
